@@ -125,23 +125,23 @@ def px_enum(agg, which, tier, features=()):
     return o
 
 
-def px_conformance(agg, prop, tier, features=()):
+def px_conformance(agg, prop, tier, features=(), cfgflags=None):
     """Compiles and runs the generated conformance programs with the real rustc / real proc macros."""
     binary = build("px", "chk", features, rustflags_extra="")
-    d = os.path.join(WORK, "px", "%s.%d" % (prop, os.getpid()))
+    d = os.path.join(WORK, "px", "%s%s.%d" % (prop, "" if cfgflags is None else "-tv%d" % cfgflags, os.getpid()))
     shutil.rmtree(d, ignore_errors=True)
     os.makedirs(d)
     env = env_base()
     env["GECS_REPO"] = REPO
-    rc, out, err = run([binary, "emit", "--tier", tier, "--dir", d, "--prop", prop, "--shards", "12"], env=env, timeout=600)
+    rc, out, err = run([binary, "emit", "--tier", tier, "--dir", d, "--prop", prop, "--shards", "12"] + ([] if cfgflags is None else ["--cfgflags", str(cfgflags)]), env=env, timeout=600)
     if rc != 0:
         raise MachineryError("px emit failed: %s" % (err or "")[-1500:])
     info = json.loads(out)["detail"]
     cases = {c["case"]: c for c in json.load(open(os.path.join(d, "cases.json")))}
-    tgt = os.path.join(TARGET, "pxgen" + ("-" + "-".join(features) if features else ""))
+    tgt = os.path.join(TARGET, "pxgen" + ("-" + "-".join(features) if features else "") + ("" if cfgflags is None else "-flags"))
     env = env_base()
     env["CARGO_TARGET_DIR"] = tgt
-    env["RUSTFLAGS"] = "--cfg gecs_verif"
+    env["RUSTFLAGS"] = "--cfg gecs_verif" + ("" if cfgflags is None else "".join(" --cfg vp%d" % i for i in range(3) if cfgflags & (1 << i)) + " --check-cfg cfg(vp0,vp1,vp2)")
     t1 = time.time()
     viol = []
     done = 0
@@ -210,7 +210,7 @@ def px_conformance(agg, prop, tier, features=()):
                 viol.append({"prop": e["prop"], "oracle": "wrong-diagnostic", "msg": "expected the diagnostic '%s', rustc said: %s" % (e["expect"], got[:2]), "program": e["program"]})
     if known_f7:
         agg["known_hits"]["C16:cfg-on-oneof-rejected"] = agg["known_hits"].get("C16:cfg-on-oneof-rejected", 0) + known_f7
-    agg["legs"].append({"engine": "px+rustc", "property": prop, "positive_cases_compiled_and_run": done, "queries_run": info["queries"], "negative_programs_compiled": negs_checked, "forbid_unsafe_code": True, "wall_s": round(time.time() - t1, 1)})
+    agg["legs"].append({"engine": "px+rustc", "property": prop, "cfg_flags": None if cfgflags is None else ["vp%d" % i for i in range(3) if cfgflags & (1 << i)], "positive_cases_compiled_and_run": done, "queries_run": info["queries"], "negative_programs_compiled": negs_checked, "forbid_unsafe_code": True, "wall_s": round(time.time() - t1, 1)})
     agg["programs"] = agg.get("programs", 0) + done + negs_checked
     for c in list(cases.values())[:2]:
         agg["samples"].append(dict(c, engine="px+rustc"))
@@ -233,13 +233,18 @@ def check_px(pid, tier, seed, t0):
     agg = _agg()
     o = px_enum(agg, which, tier)
     _px_violations(agg, o, pid)
-    for v in px_conformance(agg, pid, tier):
-        rec = dict(v, engine="px+rustc", history=None, extra={"program": v["program"]})
-        if v["prop"] == pid:
-            agg["violations"].append(rec)
-        else:
-            k = "%s:%s" % (v["prop"], v["oracle"])
-            agg["collateral"][k] = agg["collateral"].get(k, 0) + 1
+    runs = [None]
+    if pid == "C16" and tier == "thorough":
+        # the same decorated/twin pairs with predicates that are real `--cfg` flags: one compilation per truth vector
+        runs += list(range(8))
+    for flags in runs:
+        for v in px_conformance(agg, pid, tier, cfgflags=flags):
+            rec = dict(v, engine="px+rustc", history=None, extra={"program": v["program"], "cfg_flags": flags})
+            if v["prop"] == pid:
+                agg["violations"].append(rec)
+            else:
+                k = "%s:%s" % (v["prop"], v["oracle"])
+                agg["collateral"][k] = agg["collateral"].get(k, 0) + 1
     agg["rule"] = {
         "C05": "all world declarations over the component pool (every sequence of non-empty component subsets as archetypes; archetype names include one that is a prefix of another) x all parameter lists up to the length bound over (&C, &mut C, OneOf of every non-empty subset, Entity<A>/EntityDirect<A> for every archetype and one foreign name, the wildcard and dynamic forms) x the five generators are run through the REAL bind/generate code (macro sources compiled as a library) and compared with an independent set computation: matched archetype set, bound column per parameter, diagnostics; a systematic stride of them is compiled and executed with the real rustc; non-trivial = queries that do not match every archetype, contain a OneOf, or must be rejected",
         "C15": "all declarations of 1..k archetypes (and 1..k components) each with an explicit id from {none,0,1,2,254,255} and a cfg-disabled flag, plus all mixed two-archetype/two-component id assignments, are run through the REAL DataWorld::new and compared with the discriminant fold; a systematic stride is compiled with the real rustc (constants, ecs_component_id!, handle ids, SelectArchetype over all 256 ids; ill-formed ones must fail with the right diagnostic); non-trivial = declarations with >= 2 enabled items or that must be rejected",
